@@ -31,6 +31,7 @@ def sh(cmd, cwd=None, env=None, timeout=3600):
 
 def main():
     pid, src, k = sys.argv[1], Path(sys.argv[2]), sys.argv[3]
+    label = str(int(k) + int(os.environ.get("SEED_LABEL_OFFSET", "0")))      # round 2 is stored as <id>-3, <id>-4
     also = [a for a in sys.argv[4:] if a.startswith("C")]          # further properties to run against it
     patch, demo, meta = src / f"patch{k}.diff", src / f"demo{k}.py", src / f"meta{k}.json"
     if not patch.exists() or not demo.exists():
@@ -103,12 +104,12 @@ def main():
               "what_i_ran": "harness/seeded_eval.py: demo on /repo and on a patched scratch copy; full pytest suite on the "
                             "patched copy; ./check <id> with TOPSEARCH_REPO=<patched copy> (quick, then thorough)"})
     if ok or "--keep" in sys.argv:
-        dst = V / "seeded" / f"{pid}-{k}"
+        dst = V / "seeded" / f"{pid}-{label}"
         dst.mkdir(parents=True, exist_ok=True)
         shutil.copy(patch, dst / "patch.diff"); shutil.copy(demo, dst / "demo.py")
         (dst / "meta.json").write_text(json.dumps(m, indent=1))
     shutil.rmtree(work, ignore_errors=True)
-    print(f"{pid}-{k}: qualifies={ok} tests='{tail[:60]}' demo0={rc0} demo1={rc1} " +
+    print(f"{pid}-{label}: qualifies={ok} tests='{tail[:60]}' demo0={rc0} demo1={rc1} " +
           " ".join(f"{p}:caught={c['caught']}({c['tier']};{'+'.join(c['by'])})" for p, c in checks.items()))
     return 0
 
